@@ -253,9 +253,11 @@ def faults(spec, asg, toks, roles):
                         for w in [nm[0]] + list(nm[1]):
                             yield "surplus-positional", toks[:i] + [w] + toks[i:], CPA
     # 3 unknown option (only in front of `--`)
+    # (a known name behind surplus dashes is an unknown option too: `---name`, `---n`)
+    dashed = (("---" + opts[0][0],) + (("---" + opts[0][1],) if opts[0][1] else ())) if opts else ()
     for i in range(dd + 1):
         if boundary(i):
-            for u in ("--zz", "-z") + (("--zz=1",) if i in (0, dd) else ()):
+            for u in ("--zz", "-z") + (("--zz=1",) + dashed if i in (0, dd) else ()):
                 yield "unknown-option", toks[:i] + [u] + toks[i:], NSO
     for i, r in enumerate(roles):
         if r[0] in ("G", "GB", "GA", "GS"):
